@@ -1031,6 +1031,8 @@ class Interp:
             return obj.getitem(self, idx)
         if isinstance(obj, (ClassVal, Builtin, Opaque)):
             return obj     # typing generics such as list[int], Callable[...]
+        if hasattr(obj, 'pyvc_getitem'):
+            return obj.pyvc_getitem(self, idx)
         if obj is None or isinstance(obj, (SNum, SBool, int, float, complex, bool)):
             raise_py('TypeError', f'{type(obj).__name__} object is not subscriptable')
         raise OutOfSubset(f'subscript of {type(obj).__name__}')
